@@ -5,7 +5,7 @@ import ast
 
 from ..core import guards
 from ..core import pyfacts as pf
-from ..core.match import txt
+from ..core.match import canon, txt
 from ..core.source import AnchorMissing
 from .common import UTIL, ckey, enclosing, fn, returns, stmt_of, where
 
@@ -261,8 +261,7 @@ def c14_5(ctx, ss):
                 tgt = isinstance(lp.target, ast.Name) and lp.target.id
                 P = f"__elem__({txt(flow.expand(lp.iter))})"
                 whole = txt(comp[0]).replace("string.", "") in (
-                    f"{{__elem__(Formatter().parse({P}))[1] for t in Formatter().parse({P}) if isinstance(__elem__(Formatter().parse({P}))[1], str)}}".replace(
-                        " for t in", f" for {txt(g[0].target)} in"),)
+                    canon(f"{{__elem__(Formatter().parse({P}))[1] for t in Formatter().parse({P}) if isinstance(__elem__(Formatter().parse({P}))[1], str)}}"),)
                 if names == ["daughters", "mother"] and whole:
                     ok = True
                 else:
